@@ -147,9 +147,7 @@ def c18_lite_block_keeps_listed(ctx, v):
             if o.kind in ("unsupported", "unwound", "path-limit"):
                 return v.undecided("n=%d %s %s" % (n, o.kind, o.info))
             if o.kind == "panic":
-                v.queries += 1
-                if ex.feasible(o.pc):
-                    v.fail("n=%d: generate_lite_block panics: %s" % (n, o.info))
+                L.report_panic(v, ex, o, "n=%d: generate_lite_block panics: %s" % (n, o.info))
                 continue
             if o.kind != "return":
                 continue
